@@ -714,9 +714,7 @@ func (f *Frame) execBuiltin(b *ssa.Builtin, c *ssa.CallCommon, result ssa.Value,
 			return v
 		}
 		if _, ok := c.Args[0].Type().Underlying().(*types.Map); ok {
-			v := vc.freshVal("maplen", types.Typ[types.Int])
-			vc.assume(sx(">=", v.t, "0"))
-			return v
+			return Val{f.mapLen(f.cur, a.t, c.Args[0].Type()), SInt, types.Typ[types.Int]}
 		}
 		vc.errf("len of %s unsupported", a.s)
 		return vc.freshVal("len", types.Typ[types.Int])
